@@ -169,7 +169,7 @@ class RandomUniform(Initializer):
     return {'minval': self.minval, 'maxval': self.maxval, 'seed': self.seed}
 
 
-_BUILTIN_INITS = {'zeros': Zeros, 'ones': Ones, 'random_uniform': RandomUniform,
+_BUILTIN_INITS = {'zeros': Zeros, 'ones': Ones, 'random_uniform': RandomUniform, 'uniform': RandomUniform,
                   'constant': Constant, 'Zeros': Zeros, 'Ones': Ones,
                   'RandomUniform': RandomUniform, 'Constant': Constant}
 
